@@ -167,7 +167,15 @@ impl Wdb2Header {
 
                 // Calculate index array size to skip
                 let index_array_size = if max_index > 0 {
-                    let diff = (max_index - min_index + 1) as u64;
+                    // Both indices are untrusted; widen before subtracting so that
+                    // neither the difference nor the products below can overflow
+                    let diff = max_index as i64 - min_index as i64 + 1;
+                    if diff <= 0 {
+                        return Err(Error::InvalidHeader(format!(
+                            "Invalid index range: min_index {min_index} is greater than max_index {max_index}"
+                        )));
+                    }
+                    let diff = diff as u64;
                     // Index array: diff * 4 bytes (u32 per entry)
                     // String length array: diff * 2 bytes (u16 per entry)
                     diff * 4 + diff * 2
@@ -236,12 +244,16 @@ impl Wdb2Header {
 
     /// Calculates the offset to the string block
     pub fn string_block_offset(&self) -> u64 {
-        self.header_size() + (self.record_count as u64 * self.record_size as u64)
+        // The index arrays can make the header span up to 6 * 2^32 bytes, so unlike
+        // the fixed-size headers this sum does not always fit
+        self.header_size()
+            .saturating_add(self.record_count as u64 * self.record_size as u64)
     }
 
     /// Calculates the total size of the WDB2 file
     pub fn total_size(&self) -> u64 {
-        self.string_block_offset() + self.string_block_size as u64
+        self.string_block_offset()
+            .saturating_add(self.string_block_size as u64)
     }
 }
 
